@@ -243,6 +243,10 @@ func (o *object) hasInstance(of Value) bool {
 		// We should not have a hasInstance method
 		panic(o.runtime.panicTypeError("Object.hasInstance not callable"))
 	}
+	if fn, ok := o.value.(bindFunctionObject); ok {
+		// A bound function delegates to its target (ECMA 262 15.3.4.5.3).
+		return fn.target.hasInstance(of)
+	}
 	if !of.IsObject() {
 		return false
 	}
